@@ -62,6 +62,8 @@ Exact(fn) ==
     [] fn = "div" -> Elem2(LAMBDA a, b : (a * PowMod(b, E.P - 2)) % E.P, E.A, E.B)            \* prime fields, b # 0
     [] fn = "pow" -> Elem1(LAMBDA a : IPow(a, E.k), E.A)
     [] fn = "lshift" -> Elem1(LAMBDA a : a * (2 ^ E.k), E.A)
+    [] fn = "lsb" -> Elem1(LAMBDA a : a % 2, E.A)                          \* least significant bit, also of negative integers
+    [] fn = "tobits" -> Mk(E.A.sh \o <<E.k>>, LAMBDA idx : ((At(E.A, SubSeq(idx, 1, Len(idx) - 1)) % (2 ^ E.k)) \div (2 ^ idx[Len(idx)])) % 2)
     [] fn = "copy" -> E.A
 Approx == E.kind = "fxp" /\ E.fn \in {"mul", "matmul", "outer", "prod"}
 \* fixed-point products: operands are scaled by 2^F, the exact result by 2^(2F) (prod of n factors: see harness, n = 2 only)
